@@ -157,6 +157,23 @@ CHECKS = {
         "connection key, URL and cookie handling only); trust_env/netrc/middlewares at defaults; yarl decides which Locations are "
         "malformed; 301/302+POST->GET taken as the documented table; jar matching is a small RFC 6265 subset; chains of up to 9 "
         "requests over 3-4 origins; " + TRUST),
+ "C19": dict(
+   technique="TLA+ reference boundary scanner and writer/size model (Multipart.tla) whose windowed byte-level machine TLC checks "
+             "exhaustively against the declarative definition for all contents over {CR, LF, '-', b, x} and all cuts; every "
+             "execution of the real MultipartWriter, FormData, MultipartReader, BodyPartReader and BaseRequest.post - on "
+             "TLC-classified adversarial contents, mutated bodies and limit cases, under enumerated segmentations and read APIs - "
+             "is judged by TLC trace validation (MultipartTrace.tla)",
+   text="Bounded exhaustive model checking of the scanner design (round trip, size rule, window sufficiency under every "
+        "segmentation, termination) plus conformance: for every recorded session TLC compares the real reader's parts, headers, "
+        "names and content byte for byte with the reference parse of the bytes the real writer produced, checks declared size = "
+        "bytes written, bounded awaits and loop iterations on arbitrary mutated input, and header / size limits enforced within a "
+        "bounded number of bytes fed.",
+   design_ref="DESIGN.md §4 C19",
+   note="round-trip equality only for contents honouring the RFC 2046 composer obligation or read by Content-Length; transfer "
+        "encodings inverted by the stdlib in the harness (chunk-wise decode claimed for base64 and quoted-printable only); runs of a "
+        "non-structural byte are run-length encoded identically on both sides; work counted as awaits and loop back-edges via "
+        "sys.monitoring against calibrated linear bounds, never wall clock; request.post() on a mocked Request over a real "
+        "StreamReader; " + TRUST),
 }
 
 NA_REASON = "check not built yet (in progress)"
